@@ -98,7 +98,7 @@ static std::string fenU(const Position& pos) {
     return f;
 }
 
-static std::string dumpGame(GameTree& gt) {
+static std::string dumpGame(GameTree& gt, const std::string& written) {
     std::string out = "G h=";
     out += hexOf(gt.event) + "," + hexOf(gt.site) + "," + hexOf(gt.date) + "," + hexOf(gt.round) + "," +
            hexOf(gt.white) + "," + hexOf(gt.black) + "," + hexOf(gt.result);
@@ -110,6 +110,7 @@ static std::string dumpGame(GameTree& gt) {
     }
     out += " fen=" + fenU(gt.startPos) + " t=";
     dumpNode(gt.rootNode, true, out);
+    out += " w=" + hexOf(written);
     return out;
 }
 
@@ -147,7 +148,7 @@ static std::string readAllGames(const std::string& text, int maxGames) {
             std::string str; std::set<GameTree::RangeToNode> posToNodes;
             gt.getGameTreeString(str, posToNodes);
             if (!out.empty()) out += " | ";
-            out += dumpGame(gt);
+            out += dumpGame(gt, str);
             n++;
         }
     } catch (const ChessParseError& e) {
